@@ -374,6 +374,7 @@ func (s *Sim) acceptAll(batch []*req) {
 		case rNote:
 			s.logG(r.g, Ev{Kind: "note", Note: r.tag})
 		default:
+			r.since = s.now
 			s.parked = append(s.parked, r)
 		}
 	}
